@@ -425,6 +425,18 @@ PROPS["C13"].streams += [sethandle(("rel",), {"HX_ALLOC": "tag"}, "set-handle-ta
 PROPS["C04"].streams.append(sethandle(("rel", "dbg")))
 PROPS["C16"].streams.append(sethandle(("rel",)))
 PROPS["C03"].streams.append(sethandle(("rel",)))
+# inputs in read-only memory followed by an inaccessible page: the decoders may neither store into the caller's buffer
+# (not even transiently) nor read a byte past it
+ro_dec1 = lambda: Stream("dec1-ro", "dec1", lambda ctx: streamgen.dec1_cases(ctx)[::3], flavours=("rel",), env={"HX_ROINPUT": "1"}, nontrivial=lambda c, l: c != "-",
+                         rule="every third dec1 case with the input at the end of a PROT_READ mapping followed by a PROT_NONE page (release build): a store into the input, or a read past its end, faults")
+ro_load = lambda name="load-ro", stream="load": Stream(name, stream, lambda ctx: cborgen.load_cases(ctx)[::3], args=(LDEF, CAP), flavours=("rel",), env={"HX_ROINPUT": "1"},
+                         spec="load_spec" if stream == "load" else None, nontrivial=not_trivial_load, timeout=600,
+                         rule="every third input of the load space at the end of a PROT_READ mapping followed by a PROT_NONE page (release build): cbor_load may neither write to its input nor read past source_size")
+PROPS["C08"].streams.append(ro_dec1())
+PROPS["C01"].streams += [ro_dec1(), ro_load("loadpost-ro", "loadpost")]
+PROPS["C02"].streams.append(ro_load())
+PROPS["C14"].streams.append(Stream("pairs-ro", "seq", pairs_xy, args=(LDEF, CAP), flavours=("rel",), env={"HX_ROINPUT": "1"}, nontrivial=lambda c, l: l.count("ok") >= 1,
+                                   rule="the (x, y) pairs with every remainder presented at the end of a read-only mapping followed by an inaccessible page: decoding x may not read into (or past) y's bytes beyond what it reports"))
 loaduse = lambda flavours=("rel", "dbg"), env=None, name="load-use": Stream(
     name, "hist", histgen.load_use_cases, args=(LDEF, CAP, "none", 0), flavours=flavours, env=env, nontrivial=lambda c, l: True, timeout=600,
     rule="decode an item of every container / chunked / tag kind (empty, one short of and at every growth boundary, nested), then MODIFY the decoded tree through the public API (push / set / replace / get, map add, add chunk, tag item) and serialize / copy / release it: per-step results, sizes / capacities, reference counts and the complete allocator trace against model H (the decoder's bookkeeping must be what the mutators rely on)")
